@@ -18,7 +18,7 @@ import (
 // sends back reaches the client whole - whatever its size up to what the socket carries - in the order sent.
 func TestUDPUpstream(t *testing.T) {
 	rapid.Check(t, func(rt *rapid.T) {
-		upc, err := net.ListenPacket("udp", "127.0.0.1:0")
+		upc, err := hx.ListenPacket("udp", "127.0.0.1:0")
 		if err != nil {
 			rt.Fatalf("listen udp: %v", err)
 		}
@@ -60,7 +60,7 @@ func TestUDPUpstream(t *testing.T) {
 		if err != nil {
 			rt.Fatalf("provision: %v", err)
 		}
-		front, err := net.Listen("tcp", "127.0.0.1:0")
+		front, err := hx.Listen("tcp", "127.0.0.1:0")
 		if err != nil {
 			rt.Fatalf("listen: %v", err)
 		}
@@ -74,7 +74,7 @@ func TestUDPUpstream(t *testing.T) {
 			}
 			srv.VerifHandle(c)
 		}()
-		cli, err := net.Dial("tcp", front.Addr().String())
+		cli, err := hx.Dial("tcp", front.Addr().String())
 		if err != nil {
 			rt.Fatalf("dial: %v", err)
 		}
